@@ -1,0 +1,89 @@
+//go:build verif
+
+// Machine-checked contracts of the lifts in this plugin (C18): each operator is ro.Map / ro.MapErr around one
+// call of the wrapped function; the lambda must call it exactly once with the item and return its results.
+// Generated once by `rovc liftgen`, reviewed, and kept as the specification. Comments only.
+
+package rostrconv
+
+
+//@ func Atoi$1
+//@   props C18
+//@   maypanic
+//@   track call.*
+//@   ensures [calls-the-wrapped-function-once|C18] count(call.ANY) == 1 && called(call.Atoi)
+//@   ensures [passes-the-item-and-the-operator-parameters|C18] arg(call.Atoi, 0) == v
+//@   ensures [returns-its-results|C18] result0 == res(call.Atoi, 0) && result1 == res(call.Atoi, 1)
+
+//@ func FormatComplex$1
+//@   props C18
+//@   maypanic
+//@   track call.*
+//@   ensures [calls-the-wrapped-function-once|C18] count(call.ANY) == 1 && called(call.FormatComplex)
+//@   ensures [passes-the-item-and-the-operator-parameters|C18] arg(call.FormatComplex, 0) == v && arg(call.FormatComplex, 1) == mt && arg(call.FormatComplex, 2) == prec && arg(call.FormatComplex, 3) == bitSize
+//@   ensures [returns-its-result|C18] result == res(call.FormatComplex)
+
+//@ func FormatFloat$1
+//@   props C18
+//@   maypanic
+//@   track call.*
+//@   ensures [calls-the-wrapped-function-once|C18] count(call.ANY) == 1 && called(call.FormatFloat)
+//@   ensures [passes-the-item-and-the-operator-parameters|C18] arg(call.FormatFloat, 0) == v && arg(call.FormatFloat, 1) == mt && arg(call.FormatFloat, 2) == prec && arg(call.FormatFloat, 3) == bitSize
+//@   ensures [returns-its-result|C18] result == res(call.FormatFloat)
+
+//@ func FormatInt$1
+//@   props C18
+//@   maypanic
+//@   track call.*
+//@   ensures [calls-the-wrapped-function-once|C18] count(call.ANY) == 1 && called(call.FormatInt)
+//@   ensures [passes-the-item-and-the-operator-parameters|C18] arg(call.FormatInt, 0) == v && arg(call.FormatInt, 1) == base
+//@   ensures [returns-its-result|C18] result == res(call.FormatInt)
+
+//@ func FormatUint$1
+//@   props C18
+//@   maypanic
+//@   track call.*
+//@   ensures [calls-the-wrapped-function-once|C18] count(call.ANY) == 1 && called(call.FormatUint)
+//@   ensures [passes-the-item-and-the-operator-parameters|C18] arg(call.FormatUint, 0) == v && arg(call.FormatUint, 1) == base
+//@   ensures [returns-its-result|C18] result == res(call.FormatUint)
+
+//@ func ParseBool$1
+//@   props C18
+//@   maypanic
+//@   track call.*
+//@   ensures [calls-the-wrapped-function-once|C18] count(call.ANY) == 1 && called(call.ParseBool)
+//@   ensures [passes-the-item-and-the-operator-parameters|C18] arg(call.ParseBool, 0) == v
+//@   ensures [returns-its-results|C18] result0 == res(call.ParseBool, 0) && result1 == res(call.ParseBool, 1)
+
+//@ func ParseFloat$1
+//@   props C18
+//@   maypanic
+//@   track call.*
+//@   ensures [calls-the-wrapped-function-once|C18] count(call.ANY) == 1 && called(call.ParseFloat)
+//@   ensures [passes-the-item-and-the-operator-parameters|C18] arg(call.ParseFloat, 0) == v && arg(call.ParseFloat, 1) == bitSize
+//@   ensures [returns-its-results|C18] result0 == res(call.ParseFloat, 0) && result1 == res(call.ParseFloat, 1)
+
+//@ func ParseInt$1
+//@   props C18
+//@   maypanic
+//@   track call.*
+//@   ensures [calls-the-wrapped-function-once|C18] count(call.ANY) == 1 && called(call.ParseInt)
+//@   ensures [passes-the-item-and-the-operator-parameters|C18] arg(call.ParseInt, 0) == v && arg(call.ParseInt, 1) == base && arg(call.ParseInt, 2) == bitSize
+//@   ensures [returns-its-results|C18] result0 == res(call.ParseInt, 0) && result1 == res(call.ParseInt, 1)
+
+//@ func ParseUint$1
+//@   props C18
+//@   maypanic
+//@   track call.*
+//@   ensures [calls-the-wrapped-function-once|C18] count(call.ANY) == 1 && called(call.ParseUint)
+//@   ensures [passes-the-item-and-the-operator-parameters|C18] arg(call.ParseUint, 0) == v && arg(call.ParseUint, 1) == base && arg(call.ParseUint, 2) == bitSize
+//@   ensures [returns-its-results|C18] result0 == res(call.ParseUint, 0) && result1 == res(call.ParseUint, 1)
+
+//@ func ParseUint64$1
+//@   props C18
+//@   maypanic
+//@   track call.*
+//@   ensures [calls-the-wrapped-function-once|C18] count(call.ANY) == 1 && called(call.ParseUint)
+//@   ensures [passes-the-item-and-the-operator-parameters|C18] arg(call.ParseUint, 0) == v && arg(call.ParseUint, 1) == base && arg(call.ParseUint, 2) == bitSize
+//@   ensures [returns-its-results|C18] result0 == res(call.ParseUint, 0) && result1 == res(call.ParseUint, 1)
+
